@@ -74,7 +74,7 @@ func (live) Describe() core.EngineInfo {
 		Real:       []string{"goatlang loader, parser, compiler+optimizer, VM (GLOBALFUNC, GLOBALZERO, GLOBALSTRUCT, addMethod, newMethod, Yield), via New/Load/Eval/Call/Set"},
 		Stubs:      []string{"os.DirFS -> SimDisk", "cli.live glue (readline, radovskyb/watcher, goroutines, liveCh) -> session drain with the same behaviour (Load on reload command, Eval otherwise, errors to a stderr sink, drain continues)", "time.Sleep -> Yield + simulated clock", "watcher polling is modelled at generation time: reload events are placed at yields after saves, duplicated, coalesced or delayed"},
 		Assumes:    []string{"entities keep their names and signatures across versions; nothing is removed or re-typed", "a failed load may have applied any part of what it was served (old or served version accepted)", "overlapping loads (a reload landing inside init of a load in progress) leave either version", "a served line that is not byte-identical to a generated line makes its entity unknown until the next clean load"},
-		ProbesWant: []string{"reload_ok", "reload_failed", "reload_depth_1", "reload_depth_2", "reload_depth_3", "fault:torn-save", "fault:spliced-save", "fault:mixed-version-snapshot", "fault:save-during-load", "fault:delete", "fault:save-failing-at-run-time", "obs_d", "obs_fv", "obs_bm", "obs_sf", "obs_im", "obs_iv", "obs_hv", "obs_zv", "obs_sa", "repl_redefine", "set_valued_obs", "reload_identical", "reload_single_file", "reload_library_alone"},
+		ProbesWant: []string{"reload_ok", "reload_failed", "reload_depth_1", "reload_depth_2", "reload_depth_3", "fault:torn-save", "fault:spliced-save", "fault:mixed-version-snapshot", "fault:save-during-load", "fault:delete", "fault:save-failing-at-run-time", "obs_d", "obs_fv", "obs_bm", "obs_sf", "obs_im", "obs_iv", "obs_hv", "obs_zv", "obs_sa", "repl_redefine", "set_valued_obs", "reload_identical", "reload_single_file", "reload_library_alone", "failed_call_of_entity"},
 	}
 }
 
@@ -178,7 +178,19 @@ func (e live) genPlan(r *core.PRNG) *LivePlan {
 			events = append(events[:pos], append([]LStep{e.genRepl(r, w)}, events[pos:]...)...)
 		}
 		if r.Chance(1, 5) {
-			events = append(events, LStep{Kind: core.Pick(r, []string{"captureInst", "captureRefs", "bump"})})
+			if r.Chance(1, 4) {
+				var fs []int
+				for _, en := range w.Ents {
+					if en.Pkg == 0 && en.Kind == "func" {
+						fs = append(fs, en.ID)
+					}
+				}
+				if len(fs) > 0 {
+					events = append(events, LStep{Kind: "failcall", Ent: core.Pick(r, fs)})
+				}
+			} else {
+				events = append(events, LStep{Kind: core.Pick(r, []string{"captureInst", "captureRefs", "bump"})})
+			}
 		}
 		// where do these events land?
 		where := 0
@@ -193,7 +205,7 @@ func (e live) genPlan(r *core.PRNG) *LivePlan {
 			run := LStep{Kind: "main"}
 			y := 1 + r.Intn(w.Loops)
 			for _, ev := range events {
-				if ev.Kind == "captureInst" || ev.Kind == "captureRefs" || ev.Kind == "bump" {
+				if ev.Kind == "captureInst" || ev.Kind == "captureRefs" || ev.Kind == "bump" || ev.Kind == "failcall" {
 					p.Steps = append(p.Steps, ev)
 					continue
 				}
@@ -215,7 +227,7 @@ func (e live) genPlan(r *core.PRNG) *LivePlan {
 			run := LStep{Kind: "sorted"}
 			y := 1 + r.Intn(4)
 			for _, ev := range events {
-				if ev.Kind == "captureInst" || ev.Kind == "captureRefs" || ev.Kind == "bump" {
+				if ev.Kind == "captureInst" || ev.Kind == "captureRefs" || ev.Kind == "bump" || ev.Kind == "failcall" {
 					p.Steps = append(p.Steps, ev)
 					continue
 				}
@@ -229,7 +241,7 @@ func (e live) genPlan(r *core.PRNG) *LivePlan {
 		case 4: // a reload whose init is interrupted by the rest
 			outer := LStep{Kind: "load"}
 			for _, ev := range events {
-				if ev.Kind == "captureInst" || ev.Kind == "captureRefs" || ev.Kind == "bump" {
+				if ev.Kind == "captureInst" || ev.Kind == "captureRefs" || ev.Kind == "bump" || ev.Kind == "failcall" {
 					continue
 				}
 				ev.AtYield = 1
@@ -518,6 +530,18 @@ func (run *liveRun) step(s *LStep, viaYield int) {
 			run.poisoned = true
 		}
 		run.abs = append(run.abs, "cr")
+	case "failcall":
+		// the host calls a function of package main in a state in which it fails at run time
+		if e := run.w.ent(s.Ent); e != nil && e.Pkg == 0 && e.Kind == "func" {
+			if _, err := run.h.Call("main.setGF", 0, goatlang.Int(1)); err == nil {
+				_, ferr := run.h.Call("main."+e.name(), 1)
+				if ferr != nil {
+					run.h.C.Inc("failed_call_of_entity")
+				}
+				run.h.Call("main.setGF", 0, goatlang.Int(0))
+			}
+		}
+		run.abs = append(run.abs, "fc")
 	case "bump":
 		if _, err := run.h.Call("main.bump", 0); err == nil {
 			run.bumped()
